@@ -74,6 +74,26 @@ class Guard(CallbackListener):
         self._tick()
 
 
+class OneShot(CallbackListener):
+    """a listener that removes itself from INSIDE a callback (registered before the recorder): removing a
+    listener must never change what the others are told"""
+
+    def __init__(self):
+        self.fire_now = False
+        self.fired = 0
+        super().__init__()
+
+    def _tick(self, *args):
+        if self.fire_now:
+            self.fire_now = False
+            self.fired += 1
+            self.deregister_all_listeners()
+
+
+for _n in STRUCT_EVENTS + DATA_EVENTS:
+    setattr(OneShot, _n, (lambda name: (lambda self, *a: self._tick(*a)))(_n))
+
+
 class Partial(CallbackListener):
     """A second listener overriding only a subset of the hooks (registration mechanics)."""
 
@@ -353,6 +373,7 @@ def run_script(ops_or_len, rng, profile, drv, res, with_listeners=True, outcomes
     sink = Sink(world)
     guard = Guard()       # the vetoing listener is part of the scenario in both runs (with / without the observers)
     world.guard = guard
+    oneshot = OneShot() if with_listeners else None
     rec = Recorder(sink) if with_listeners else None
     part = Partial() if with_listeners else None
     singles = [DeleteOnly(), PopOnly(), ConnectOnly()] if with_listeners else []
@@ -365,6 +386,19 @@ def run_script(ops_or_len, rng, profile, drv, res, with_listeners=True, outcomes
     script = []
     cur = dump_impl(world)
     outs = []
+    last_shot = [None]
+
+    def relabel(op, k):
+        # one cause: a listener removed itself inside a callback and the others were told less, at that call or
+        # (the mirror having missed it) noticed at a later one
+        if op.get("oneshot"):
+            last_shot[0] = k
+        if last_shot[0] is not None and any(not f.get("soft") for f in findings):
+            det = "; ".join(sorted(set(f["signature"] for f in findings if not f.get("soft"))))[:300]
+            soft = [f for f in findings if f.get("soft")]
+            findings[:] = soft + [{"kind": "spec", "signature": "listener_removed_inside_callback.other_listeners_miss_the_announcement",
+                                   "step": k, "detail": "a listener deregistered itself inside a callback at step %d; seen as: %s" % (last_shot[0], det)}]
+
     try:
         for k in range(n):
             if gen and rng.random() < 0.15:
@@ -377,11 +411,19 @@ def run_script(ops_or_len, rng, profile, drv, res, with_listeners=True, outcomes
                 op = None
             if op is None:
                 op = irgen.gen_op(rng, cur, profile, compound=True, veto=True) if gen else ops_or_len[k]
+            if gen and "oneshot" not in op and rng.random() < 0.03:
+                op = dict(op, oneshot=True)
             script.append(op)
+            if oneshot is not None and op.get("oneshot"):
+                if oneshot.fired:
+                    oneshot.register_all_listeners()        # back in (at the end of the lists) for another round
+                    oneshot.fired = 0
+                oneshot.fire_now = True
             if op["t"] == "data":
                 f = data_step(world, sink, drv, op, k, with_listeners)
                 outs.append(f[0])
                 findings.extend(f[1])
+                relabel(op, k)
                 if any(not x.get("soft") for x in findings):
                     break
                 continue
@@ -471,10 +513,13 @@ def run_script(ops_or_len, rng, profile, drv, res, with_listeners=True, outcomes
             md = canon_model_dump(drv.ask({"cmd": "dump", "n": world.counts()}))
             if out != m["res"] or md != cur:
                 findings.append({"kind": "corr", "signature": "%s.state" % op["t"], "step": k, "detail": "state/outcome differ (see C01/C02)"})
+            relabel(op, k)
             if any(not f.get("soft") for f in findings):
                 break
     finally:
         guard.deregister_all_listeners()
+        if oneshot is not None and not oneshot.fired:
+            oneshot.deregister_all_listeners()
         if rec is not None:
             rec.deregister_all_listeners()
             part.deregister_all_listeners()
